@@ -234,7 +234,20 @@ def run(tier, seed, ck=None, which=None):
         pp = bvconst256(P)
         goals = [('C12.Reduce.flag', 'Reduce returns 1 iff input < p (all 2^256 inputs), else 0', '(assert (not (= n%d (ite (bvult %s %s) (_ bv1 64) (_ bv0 64)))))' % (o['flag']['n'], X0, pp)),
                  ('C12.Reduce.value', 'Reduce leaves input mod p (one conditional subtraction: 2^256 < 2p)', '(assert (not (= %s (ite (bvult %s %s) %s (bvsub %s %s)))))' % (X, X0, pp, X0, X0, pp))]
-        ck.prove_batch(low.all(), goals, timeout=60)
+        ans_ = ck.prove_batch(low.all(), goals, timeout=60)
+        if 'sat' in ans_:
+            # the solver's own inputs become replay cases (raw 256-bit words fed to Reduce and, as 32 bytes, to FromBytesWithReduce);
+            # further models with the top limb pinned to different values give the relying checks (decoders) several x / y candidates
+            import random as _rnd
+            from vf.dag import ensure_vars as _ev
+            rg_ = _rnd.Random(7 + ck.seed)
+            xn_ = ['n%d' % x for x in o['X0']['f']]
+            for g_ in [g for g, a_ in zip(goals, ans_) if a_ == 'sat'][:1]:
+                for pin_ in (None, rg_.getrandbits(63), rg_.getrandbits(64) | 1, rg_.getrandbits(62)):
+                    extra_ = '' if pin_ is None else '\n(assert (= %s (_ bv%d 64)))' % (xn_[3], pin_)
+                    m_, _s = smt.get_model(low.all() + extra_ + '\n' + g_[2], xn_, timeout=20)
+                    if m_:
+                        ck.extra.setdefault('_cex', []).append({'kind': 'field-reduce', 'op': 'Reduce', 'a': '%064x' % unlimbs([m_[x] for x in xn_]), 'b': '%064x' % 0})
     if r is not None and own:
         # the unexported byte <-> limb helpers observed directly (their own harness file: a tree that changes their signatures keeps the
         # end-to-end obligations on FromBytesWithReduce / FromBytesNoReduce / Bytes, which compose them)
